@@ -86,8 +86,9 @@ func init() {
 		Scenarios: func(t string) []*simScenario { return memberScenarios(t, nil, 0) }, Budget: budget,
 		MustReach: []string{"configs"}}
 	vkChecks["C08"] = func(args []string) int { return runSimCheck(c08, args) }
-	c11 := &simCheckSpec{Prop: "C11", Oracles: []string{"nonvoter", "removed", "promote"},
-		Scenarios: func(t string) []*simScenario { return memberScenarios(t, nil, 0) }, Budget: budget,
+	// "acknowledgements [of non-voters] never count towards commitment": the durable-on-a-voter-majority oracle runs here too
+	c11 := &simCheckSpec{Prop: "C11", Oracles: []string{"nonvoter", "removed", "promote", "durable"},
+		Scenarios: func(t string) []*simScenario { return memberScenarios(t, []string{"durable"}, 1) }, Budget: budget,
 		MustReach: []string{"configs"}}
 	vkChecks["C11"] = func(args []string) int { return runSimCheck(c11, args) }
 	c06 := &simCheckSpec{Prop: "C06", Oracles: []string{"durable"},
